@@ -11,8 +11,10 @@ on the implementation, and its Endogenous / Decoration (as ASTs, numbers exact) 
 InitialConditions are compared with `reduce` of the model.
 Oracle (implementation only): every well-posed contractive block is solved with
 EquationSolver(run_equation_reduction=True) and (...=False); every variable of the block must be in
-both results with MaxTime+1 points, the k=0 row and exogenous series must be equal exactly, every other
-value within C*tol*max(1,|v|) (the two runs stop on different iterates of the same contraction).
+both results with MaxTime+1 points, the k=0 row must be equal exactly, every later value within
+TOL_FACTOR*tol*max(1,|v|) (the two runs stop on different iterates of the same contraction; values that
+do not come out of the iteration - exogenous series, the time axis - differ by 0).  Blocks with equality
+loops (reduction refuses them by design) and malformed blocks go to the correspondence only.
 """
 import ast
 import io
@@ -650,7 +652,7 @@ def run(ctx):
                 'length 1-4 and malformed blocks (duplicate definitions, aliases of MaxTime/unknown names, near-aliases '
                 'such as "+ x", "(x)", "++x").  Non-trivial = the reduction substituted at least one alias, moved more '
                 'than the time axis to Decoration, or raised; distinct by block text')
-    out.samples = [{'block': m['block'], 'impl': m['impl']} for m in (metas[0], metas[len(metas) // 2], metas[-1])]
+    out.samples = [{'block': m['block'], 'impl': m['impl']} for m in (metas[:1] + metas[len(metas) // 2:len(metas) // 2 + 1] + metas[-1:])]
     stats['max_abs_difference_on_vs_off'] = float('%.3g' % stats['max_abs_difference_on_vs_off'])
     out.extra = {'input_distribution': stats, 'source_hashes': common.source_hashes(
         ['sfc_models/equation_parser.py', 'sfc_models/equation_solver.py', 'sfc_models/utils.py'])}
